@@ -387,14 +387,17 @@ def startCommand (T : Table) (s : PState) (k : TokKind) (text : Bytes) : FnResul
 /-- `__command` after the state function declined the token: `{` opens the block of a complete
     control, `;` ends an action -/
 def closeCommand (s' : PState) (k : TokKind) (rew : Bool) : FnResult :=
-  match s'.stack with
-  | [] => .crash "AttributeError: NoneType"
-  | f :: _ =>
-    if k == .left_cbracket then
+  if k == .left_cbracket then
+    match s'.stack with
+    | [] => .crash "AttributeError: NoneType"
+    | f :: _ =>
       if f.d.kind == .control && f.d.acceptChildren && Frame.complete f then
         .ret true { s' with brackets := .right_cbracket :: s'.brackets, cstate := .none } rew
       else .ret false s' rew
-    else if k == .semicolon then
+  else if k == .semicolon then
+    match s'.stack with
+    | [] => .crash "AttributeError: NoneType"
+    | f :: _ =>
       if f.d.kind == .test || f.d.acceptChildren then .ret false s' rew
       else
         match completion { s' with cstate := .none } false with
@@ -408,7 +411,7 @@ def closeCommand (s' : PState) (k : TokKind) (rew : Bool) : FnResult :=
             match up s3 with
             | .error w => .crash w
             | .ok s4 => .ret true s4 rew
-    else .ret false s' rew
+  else .ret false s' rew
 
 /-- the state function of the current state (`self.__cstate`) -/
 def stateFn (T : Table) (s : PState) (k : TokKind) (text : Bytes) : FnResult :=
@@ -429,25 +432,33 @@ def commandFn (T : Table) (s : PState) (k : TokKind) (text : Bytes) : FnResult :
 def stripWs (b : Bytes) : Bytes :=
   ((b.dropWhile B.isWs).reverse.dropWhile B.isWs).reverse
 
+/-- `if self.__expected is not None: if ttype not in self.__expected: raise …; self.__expected = None` -/
+def admit (s : PState) (k : TokKind) : Option PState :=
+  match s.expected with
+  | none => some s
+  | some exp => if decide (k ∈ exp) then some { s with expected := none } else none
+
+/-- what the loop body does with the answer of `__command` -/
+def ofFn (r : FnResult) : StepResult :=
+  match r with
+  | .ret true s2 false => .ok s2
+  | .ret true s2 true => .rewind s2
+  | .ret false _ rew => .reject .unexpectedToken rew
+  | .err e rew => .reject e rew
+  | .crash w => .crash w
+
+/-- a token that is not a comment -/
+def stepTok (T : Table) (s : PState) (k : TokKind) (text : Bytes) : StepResult :=
+  match admit s k with
+  | none => .reject (.expected k (s.expected.getD [])) false
+  | some s1 => ofFn (commandFn T s1 k text)
+
 /-- the body of the `for ttype, tvalue in self.lexer.scan(text)` loop -/
 def step (T : Table) (s : PState) (tok : Tok) : StepResult :=
   match tok.kind with
   | .hash_comment => .ok { s with comments := s.comments ++ [stripWs tok.text] }
   | .bracket_comment => .ok s
-  | k =>
-    let chk : Option PState :=
-      match s.expected with
-      | none => some s
-      | some exp => if decide (k ∈ exp) then some { s with expected := none } else none
-    match chk with
-    | none => .reject (.expected k (s.expected.getD [])) false
-    | some s1 =>
-      match commandFn T s1 k tok.text with
-      | .ret true s2 false => .ok s2
-      | .ret true s2 true => .rewind s2
-      | .ret false _ rew => .reject .unexpectedToken rew
-      | .err e rew => .reject e rew
-      | .crash w => .crash w
+  | k => stepTok T s k tok.text
 
 inductive Outcome where
   | accept (result : List Node)
